@@ -738,7 +738,7 @@ def gen_dialog_case(g, tier, c17=None):
     w = World(g, nlisten=1, nback=nb, names="svc.test, urn:service:sos", rcvd=True)
     w.routes = []          # in-dialog requests must be addressed to the service, not statically routed
     w.listeners[0].proto = "UDP"
-    w.obs += ["127.0.1.%d:5080" % (j + 1) for j in range(nb)]
+    w.obs += ["127.0.1.%d:5080" % (j + 1) for j in range(nb + 2)]        # (the last two join and leave during the case)
     c = Case(g, w)
     ops = c.ops
     lst = w.listeners[0]
@@ -776,10 +776,36 @@ def gen_dialog_case(g, tier, c17=None):
             via = Via("UDP", ua_ip, w.port_ua, [("branch", "z9hG4bK" + g.word(ALNUM.upper(), 6, 9))])
             m = dialog_msg(c, g, g.pick(["INFO", "MESSAGE", "UPDATE", "OPTIONS"]), g.pick(["sip:svc.test", "sip:bob@svc.test"]), d, g.chance(0.5), vias=[via])
             raw(m, ua_ip, w.port_ua, ["spec=C04 " + expect_dest("B", None, w.backends[0]),
-                                      ("spec=C15 remember %s" % tag) if k == 0 else ("spec=C15 destdiffers %s" % tag)])
+                                      ("spec=C15 remember %s" % tag) if k == 0 else ("spec=C15 destdiffers %s" % tag)] +
+                ([("spec=C19 remember %s" % tag) if k == 0 else ("spec=C19 destdiffers %s" % tag)] if why == "answer_from_non_member" else []))
         g.count("dlg_lb_pair_" + why)
+    spare = ["127.0.1.%d:5080" % (nb + 1 + j) for j in range(2)]      # addresses that join and leave the service's backends
+    strangers = 0
     for _ in range(steps):
         bound = [x for x in ds if x.pinned]
+        if g.chance(0.07):
+            x = g.pick(spare)
+            if x not in w.backends[0]:
+                if g.chance(0.6):
+                    # before it joins, the address answers something (a late answer of an earlier membership, a peer that is
+                    # no backend yet): relayed by its Via, and attributed to nobody - the dialog is bound to no backend
+                    strangers += 1
+                    dz = Dialog(g, 700 + strangers)
+                    own = Via("UDP", lst.addr, lst.port, [("branch", "z9hG4bKown" + g.word(ALNUM, 4, 6))])
+                    back = Via("UDP", ua_ip, w.port_ua, [("branch", "z9hG4bK" + g.word(ALNUM.upper(), 6, 9))]).stamped(ua_ip, w.port_ua)
+                    r = dialog_resp(c, g, 200, "INVITE", dz, [own, back])
+                    xip, xport = x.split(":")
+                    raw(r, xip, int(xport), ["spec=C02 " + expect_dest("U", "%s:%d" % (ua_ip, w.port_ua))])
+                    lb_pair(dz, "answer_from_non_member")
+                    g.count("dlg_answer_from_address_before_it_joins")
+                ops.append("pipe badd p=0 %s" % hx(x))
+                w.backends[0].append(x)
+                g.count("dlg_backend_added")
+            elif not any(dd.backend == x for dd in ds) and len(w.backends[0]) > 2:
+                ops.append("pipe brem p=0 %s" % hx(x))
+                w.backends[0].remove(x)
+                g.count("dlg_backend_removed")
+            continue
         if bound and g.chance(0.05):
             # more time passes than any binding lives: every binding made so far has lapsed
             ops.append("pipe pinwait p=0 %d" % g.pick([7300, 8000, 100000]))
@@ -858,7 +884,9 @@ def gen_dialog_case(g, tier, c17=None):
                 d.pinned = False       # the terminating NOTIFY dissolves the binding whether or not it could be delivered
             continue
         if d.pinned:
-            raw(m, ua_ip, w.port_ua, ["spec=C04 " + expect_dest("B", None, [d.backend]), "spec=C01 relay"])
+            # (a backend that joined during the case is recognised as the source of its answers like any other: C19)
+            raw(m, ua_ip, w.port_ua, ["spec=C04 " + expect_dest("B", None, [d.backend]), "spec=C01 relay"] +
+                (["spec=C19 " + expect_dest("B", None, [d.backend])] if d.backend in spare else []))
             g.count("dlg_indialog_" + method)
         else:
             raw(m, ua_ip, w.port_ua, ["spec=C04 " + expect_dest("B", None, w.backends[0])])
